@@ -16,6 +16,10 @@ Theorem C15_silent : C15_silent_statement.
 Proof. exact C15Facts.C15_silent. Qed.
 Print Assumptions C15_silent.
 
+Theorem C15_hist : C15_hist_statement.
+Proof. exact C15Facts.C15_hist. Qed.
+Print Assumptions C15_hist.
+
 Example C15_nonvacuous :
   let h := [[(49, 37); (50, 37); (200, 1)]; [(49, 37); (50, 38)]; [(49, 36)]] in
   forallb wf_ann h = true /\ fst (announce_all [50] [] h) = [[49]; []; [49]].
